@@ -124,6 +124,48 @@ class Model:
         self.ctx.analysed_fns.add(fn.path)
         return self.w.qi(fn)
 
+    def ov(self, f):
+        """whole-operation view of an API entry of the book: every private function of the crate spliced in (placement
+        helpers, side dispatchers, matching loops, queue / unqueue helpers ...), so that the analysis does not depend on how
+        the operation is cut into functions.  Only the trade writer stays a call (its record / fill rules are judged on its
+        own body); the side index operations (trait impls) are primitive."""
+        from analysis.inline import Inliner, default_policy
+        from analysis.query import FnQ
+        cache = self.__dict__.setdefault("_opviews", {})
+        if "inl" not in cache:
+            tw = {f_.path for (f_, _c) in self.trade_writers()}
+            st = self.stamp_fn()
+            if st is not None:
+                tw.add(st.path)    # (the queue-stamp method is judged on its own body as well: C05 stamp rules)
+            cache["inl"] = Inliner(self.prog, lambda caller, callee: default_policy(caller, callee) and callee.path not in tw, max_depth=10)
+        if f.path not in cache:
+            self.ctx.analysed_fns.add(f.path)
+            cache[f.path] = FnQ(self.w, cache["inl"].inlined(f))
+        return cache[f.path]
+
+    def stamp_fn(self):
+        """the queue-stamp method: returns max(clock, counter) and stores result + 1 in the counter"""
+        if "_stamp_fn" not in self.__dict__:
+            self.__dict__["_stamp_fn"] = None
+            if self.f_stamp is not None:
+                for f in self.book_all_fns():
+                    ws = [w for w in self.q(f).writes(field=self.f_stamp) if w.root[0] == "param"]
+                    if ws and f.sig.endswith("-> u64"):
+                        self.__dict__["_stamp_fn"] = f
+                        break
+        return self.__dict__["_stamp_fn"]
+
+    def ov_matching_loops(self, q):
+        """matching loops inside a view: [(loop head block, passive side, best_order_idx Call)] - one per inlined copy"""
+        out = []
+        seen = set()
+        for (c, side) in self.side_op_calls(q, "best_order_idx"):
+            heads = q.cfg.loops_containing(c.b)
+            if heads and (heads[0], side) not in seen:
+                seen.add((heads[0], side))
+                out.append((heads[0], side, c))
+        return out
+
     def book_fn(self, name):
         return self.prog.method("OrderBook", name, crate="bourse_book")
 
